@@ -58,6 +58,16 @@ def boom(x):
 
 
 @task()
+def lboom(x):
+    """Raises an error that keeps a reference to the (unpicklable) resource it failed on."""
+    import threading
+
+    e = ValueError("lboom")
+    e.lock = threading.Lock()
+    raise e
+
+
+@task()
 def kboom(x):
     raise KeyError("kboom")
 
